@@ -50,6 +50,18 @@ CHECKS = {
                 technique="deterministic simulation: save/restore/new-run op histories on a simulated folder with stale-folder and extreme-value faults; deep bitwise comparator (RefCheckpoint) between live and restored object graphs; SQLite module API round trips",
                 text="Every checkpoint a generated op history writes (after each calibrate() with a folder, and explicit create_checkpoint calls, including zero-row states and folders that already hold an earlier or a different run) is restored and compared field by field, bitwise, with the live calibrator: configuration, counters, five arrays, generator state, and a generic recursive walk of scheduler, samplers, agent and loss. The SQLite back-end is exercised with the same live states through its module API.",
                 note="Threads/queues are transient by design; fitted third-party models are compared by type; NaN payload bits are not considered observable."),
+    "C05": dict(engine="calsim", category="fault_enumeration", design="4/C05",
+                technique="deterministic simulation with crash injection: every labelled cutting (plain second calibrate / crash+restore / crash inside the next batch+restore) of n batches enumerated for sampled configurations, bitwise comparison with the uninterrupted twin",
+                text="For sampled round-robin configurations over all nine samplers and all losses, all 4^(n-1) labelled cuttings of n <= 4 batches (5 in the thorough tier; 24 sampled cuttings for n up to 14) are executed with only the folder surviving a crash; the final history must be bit-identical to the uninterrupted run's.",
+                note="Restores are in-process (all references dropped, ambient state perturbed), not in a fresh interpreter; RL line-ups are outside the property's quantifier."),
+    "C18": dict(engine="calsim", category="exploration", design="4/C18",
+                technique="deterministic simulation: calibrate/set_samplers/set_scheduler/checkpoint/restore op histories with an id-table reference model; checkpoint read back by restore and by the plotting helper",
+                text="The sampler seam records which class produced every row; after every op the live id table must extend the reference table without renumbering and map every stored label to the producing class; every checkpoint the calibrator writes is restored (restored table must still map all stored labels) and passed to plot_results._get_samplers_names (names must be right for all ids present).",
+                note="set_scheduler is exercised with round-robin schedulers; nothing is drawn (Agg back-end)."),
+    "C19": dict(engine="rlsim+compsim", category="exploration", design="4/C19",
+                technique="deterministic simulation: real agent and environment inside the baton-scheduled exchange refined step by step against a reference bandit; agent op sequences with reseed/pickle-restart twins; non-monotone observation sequences on the environment",
+                text="Every learn (only the rewarded arm moves, by step*(reward-estimate), step 1/count or the constant rate), every reward (relative improvement, reference moves only on improvement), every policy result (valid index; argmax set when eps=0) is compared with the reference model, in the simulated exchange on the agent's own thread and in direct op sequences with twins built from the same seed or reseeded identically after different constructor seeds.",
+                note="Relative tolerance 1e-12 on estimates; loss sequences keep the reference best away from zero."),
 }
 
 NOT_APPLICABLE = {
